@@ -133,6 +133,16 @@ def handle (st : St) (args : List String) (impl : String) : St × Verdict :=
     | some a, some b, some c, some d, some n, some rot =>
       (st, cmpModel (toString (siphashBlock (mkKeys a b c d) n.toUInt64 rot.toUInt64 (xa == "true")).toNat) impl)
     | _, _, _, _, _, _ => (st, .unknown)
+  -- the graph is seeded by the header with the nonce spliced in (for every nonce, 0 included) resp.
+  -- by the unmodified header for `none`: fixed by the property, compared as a spec value
+  | ["keysspec", hdr, nonce] =>
+    match parseHex hdr with
+    | some hb =>
+      let k := match nat? nonce with
+        | some n => keysOfHeader (spliceNonce hb n) none
+        | none => keysOfHeader hb none
+      (st, cmpSpec (keysStr k) impl)
+    | none => (st, .unknown)
   | ["keys", hdr, nonce] =>
     match parseHex hdr with
     | some hb => (st, cmpModel (keysStr (keysOfHeader hb (nat? nonce))) impl)
